@@ -1,9 +1,11 @@
 (* C08 — property theorems only: statement, `exact <lemma>`, Print Assumptions.
-   Scope: the scanner (parse/lexer.go).  The generated LALR parser and the compiler are not
+   Scope: the scanner (parse/lexer.go) and, for the grammar, a REFERENCE parser/printer written from
+   lparser.c (Front/Parser.v, Front/Printer.v).  The generated LALR parser and the compiler are not
    modelled; "never panics / terminates / classifies as a syntax error" for them is exploration
    on the Go side (see notes/C08.md). *)
 From GL Require Import Common.Bytes Front.Lines Front.Lexer Front.LexerFacts Front.LinesFacts
-  Front.Render Front.RenderFacts.
+  Front.Render Front.RenderFacts Front.Ast Front.Parser Front.Printer Front.ParserFacts
+  Front.ParserProgress.
 
 (* every Scan step consumes at least one byte or returns EOF / an error (and never runs out of
    the fuel length+1) *)
@@ -58,3 +60,48 @@ Theorem lex_layout_independent : forall items1 tr1 items2 tr2,
                 map tok_strip t1 = map tok_strip t2.
 Proof. exact lex_layout_independent_lemma. Qed.
 Print Assumptions lex_layout_independent.
+
+(* ---------- the grammar: reference parser and printer (Lua 5.1 + goto/labels) ---------- *)
+
+(* the printer/parser round trip: every well-formed tree, printed with the parentheses and ";"
+   it carries plus the ones the priorities force, is read back as its normal form - in the Lua 5.1
+   dialect (d = strict) and in the dialect that models gopher-lua's grammar (d = gopher) *)
+Theorem parse_print_roundtrip : forall d b,
+  wf_b b = true -> parse_d d (print b) = ParseOk (norm_b b).
+Proof. exact parse_print_roundtrip_lemma. Qed.
+Print Assumptions parse_print_roundtrip.
+
+(* for a tree already in normal form: parse (print ast) = ast *)
+Theorem parse_print_roundtrip_normal : forall d b,
+  wf_b b = true -> normal b -> parse_d d (print b) = ParseOk b.
+Proof. exact parse_print_normal. Qed.
+Print Assumptions parse_print_roundtrip_normal.
+
+(* optional semicolons and parentheses that do not change grouping are irrelevant: trees with the
+   same normal form (norm_b forgets exactly the ";" flags and the parentheses around expressions
+   that are not a call or "...": lemmas norm_semi_irrelevant, norm_paren_irrelevant) parse alike *)
+Theorem parse_ignores_semis_and_redundant_parens : forall d b1 b2,
+  wf_b b1 = true -> wf_b b2 = true -> norm_b b1 = norm_b b2 ->
+  parse_d d (print b1) = parse_d d (print b2).
+Proof. exact parse_ignores_layout_lemma. Qed.
+Print Assumptions parse_ignores_semis_and_redundant_parens.
+
+Theorem parse_ignores_semis : forall s sm sm' r, norm_b (BCons s sm r) = norm_b (BCons s sm' r).
+Proof. exact norm_semi_irrelevant. Qed.
+Print Assumptions parse_ignores_semis.
+
+Theorem parse_ignores_redundant_parens : forall x,
+  multi (norm_e x) = false -> norm_e (EParen x) = norm_e x.
+Proof. exact norm_paren_irrelevant. Qed.
+Print Assumptions parse_ignores_redundant_parens.
+
+(* the reference parser terminates on EVERY token list, in either dialect: fuel 8 per token + 8
+   is always enough (`parse` uses 32 per token + 32), so "rejects" is never an artefact of fuel *)
+Theorem parse_progress : forall d toks fuel,
+  (8 * length toks + 8 <= fuel)%nat -> parse_fuel d fuel toks <> ParseOutOfFuel.
+Proof. exact parse_progress_lemma. Qed.
+Print Assumptions parse_progress.
+
+Theorem parse_total : forall d toks, parse_d d toks <> ParseOutOfFuel.
+Proof. exact parse_always_answers. Qed.
+Print Assumptions parse_total.
